@@ -43,7 +43,8 @@ class Skip(Exception):
 class State:
     """A rewritten pipeline plus how to talk to it."""
 
-    def __init__(self, p, names, outs, conv="flat", scope=None):
+    def __init__(self, p, names, outs, conv="flat", scope=None, nested=False):
+        self.nested = nested    # a subset was nested already (convexity of a further subset is not re-analysed)
         self.p = p              # pipeline or list of pipelines (split)
         self.names = names      # original name -> current name
         self.outs = outs        # retained original output names (requestable individually)
@@ -98,9 +99,9 @@ def apply_rewrite(kind, st, case, rng, scratch):
     if isinstance(p, list):
         raise Skip
     if kind == "copy":
-        return State(p.copy(), dict(st.names), list(st.outs), st.conv, st.scope)
+        return State(p.copy(), dict(st.names), list(st.outs), st.conv, st.scope, st.nested)
     if kind == "pickle":
-        return State(cloudpickle.loads(cloudpickle.dumps(p)), dict(st.names), list(st.outs), st.conv, st.scope)
+        return State(cloudpickle.loads(cloudpickle.dumps(p)), dict(st.names), list(st.outs), st.conv, st.scope, st.nested)
     if kind in ("join", "or"):
         fs = list(p.functions)
         if len(fs) < 2:
@@ -108,7 +109,7 @@ def apply_rewrite(kind, st, case, rng, scratch):
         k = rng.randint(1, len(fs) - 1)
         a, b = Pipeline(fs[:k]), Pipeline(fs[k:])
         q = a.join(b) if kind == "join" else (a | b)
-        return State(q, dict(st.names), list(st.outs), st.conv, st.scope)
+        return State(q, dict(st.names), list(st.outs), st.conv, st.scope, st.nested)
     if kind == "rename":
         present = {n for f in p.functions for n in list(f.parameters) + list(f.output_name if isinstance(f.output_name, tuple) else (f.output_name,))}
         cur = sorted(set(st.names.values()) & present)
@@ -121,7 +122,7 @@ def apply_rewrite(kind, st, case, rng, scratch):
             raise Skip
         q = p.copy()
         q.update_renames(ren, update_from="current")
-        return State(q, {o: ren.get(c, c) for o, c in st.names.items()}, list(st.outs), st.conv, st.scope)
+        return State(q, {o: ren.get(c, c) for o, c in st.names.items()}, list(st.outs), st.conv, st.scope, st.nested)
     if kind == "rename-swap":
         # permute the names of two root parameters that meet in one function (each new name is the other's current name)
         present_roots = [r for r in case["roots"] if st.names.get(r) and any(st.names[r] in f.parameters for f in p.functions)]
@@ -135,7 +136,7 @@ def apply_rewrite(kind, st, case, rng, scratch):
         q.update_renames({ca: cb, cb: ca}, update_from="current")
         names = dict(st.names)
         names[a], names[b] = cb, ca
-        return State(q, names, list(st.outs), st.conv, st.scope)
+        return State(q, names, list(st.outs), st.conv, st.scope, st.nested)
     if kind in ("scope", "scope-nested"):
         if st.scope is not None:
             raise Skip
@@ -143,13 +144,13 @@ def apply_rewrite(kind, st, case, rng, scratch):
         q.update_scope("sc", "*", "*")
         present = {n for f in q.functions for n in list(f.parameters) + list(f.output_name if isinstance(f.output_name, tuple) else (f.output_name,))}
         return State(q, {o: (f"sc.{c}" if f"sc.{c}" in present or c not in present else c) for o, c in st.names.items()}, list(st.outs),
-                     "nested" if kind == "scope-nested" else "flat", "sc")
+                     "nested" if kind == "scope-nested" else "flat", "sc", st.nested)
     if kind == "scope-remove":
         if st.scope is None:
             raise Skip
         q = p.copy()
         q.update_scope(None, "*", "*")
-        return State(q, {o: (c.split(".", 1)[1] if c.startswith("sc.") else c) for o, c in st.names.items()}, list(st.outs), "flat", None)
+        return State(q, {o: (c.split(".", 1)[1] if c.startswith("sc.") else c) for o, c in st.names.items()}, list(st.outs), "flat", None, st.nested)
     if kind in ("nest", "nest-all"):
         q = p.copy()
         if len(q.functions) < 2:
@@ -159,6 +160,8 @@ def apply_rewrite(kind, st, case, rng, scratch):
                 raise Skip  # NestedPipeFunc demands a single leaf
             q.nest_funcs("*")
         else:
+            if st.nested:
+                raise Skip  # the harness's convexity analysis is done on the original DAG only
             subs = convex_subsets(case, rng)
             if not subs:
                 raise Skip
@@ -178,7 +181,7 @@ def apply_rewrite(kind, st, case, rng, scratch):
             if len(_P(sub).leaf_nodes) != 1:
                 raise Skip
             q.nest_funcs(cur_out)
-        return State(q, dict(st.names), list(st.outs), st.conv, st.scope)
+        return State(q, dict(st.names), list(st.outs), st.conv, st.scope, nested=True)
     if kind == "simplify":
         leaves = p.leaf_nodes
         if len(leaves) != 1:
@@ -191,7 +194,7 @@ def apply_rewrite(kind, st, case, rng, scratch):
                 raise Skip from None
             raise
         keep = [o for o in st.outs if st.names[o] in q.output_to_func or any(st.names[o] in (n if isinstance(n, tuple) else (n,)) for n in q.output_to_func)]
-        return State(q, dict(st.names), keep, st.conv, st.scope)
+        return State(q, dict(st.names), keep, st.conv, st.scope, True)
     if kind == "split":
         try:
             parts = list(p.split_disconnected())
@@ -199,7 +202,7 @@ def apply_rewrite(kind, st, case, rng, scratch):
             if "fully connected" in str(e):
                 raise Skip from None
             raise
-        return State(parts, dict(st.names), list(st.outs), st.conv, st.scope)
+        return State(parts, dict(st.names), list(st.outs), st.conv, st.scope, st.nested)
     raise AssertionError(kind)
 
 
